@@ -575,12 +575,68 @@ func c08StoreWriteCrash(r *hx.Run) {
 	}
 }
 
+// c08AgeAcrossReload: the origin sends an Age of its own. Whatever pike shows as Age for such a response,
+// the same stored version shows it "continuing" after the memory was dropped and the record reloaded: a
+// hit after the reload never carries a smaller Age than a hit one second before it.
+func c08AgeAcrossReload(r *hx.Run) {
+	storeURL := fmt.Sprintf("mem://c08age/%d", r.Seed)
+	hx.NewMemStore(storeURL)
+	port := hx.FreePorts(1)[0]
+	gen := 0
+	var origin string
+	mk := func(o string) *config.PikeConfig {
+		gen++
+		name := fmt.Sprintf("c08age%d", gen)
+		return &config.PikeConfig{
+			Caches:    []config.CacheConfig{{Name: name, Size: 1000, HitForPass: "20s", Store: storeURL}},
+			Upstreams: []config.UpstreamConfig{{Name: "u", Servers: []config.UpstreamServerConfig{{Addr: o}}}},
+			Locations: []config.LocationConfig{{Name: "l", Upstream: "u"}},
+			Servers:   []config.ServerConfig{{Addr: srvAddr(port), Locations: []string{"l"}, Cache: name}},
+		}
+	}
+	w := newWorldCfg(r, 1, true, func(o []string) *config.PikeConfig { origin = o[0]; return mk(o[0]) })
+	defer w.Farm.Close()
+	for i, originAge := range []string{"", "30", "1", "59"} {
+		uri := fmt.Sprintf("/c08/c/age/%d", i)
+		w.Farm.SetScript(func(f *hx.Fetch) *hx.Reply {
+			h := [][2]string{{"Content-Type", "text/plain"}, {"Cache-Control", "max-age=100"}}
+			if originAge != "" {
+				h = append(h, [2]string{"Age", originAge})
+			}
+			return &hx.Reply{Status: 200, Header: h, Body: hx.IdentBody(f, 1500, "text")}
+		})
+		get := func() *hx.Result {
+			return w.Cl.Do(hx.Req{Addr: w.Addr, Host: "c08.example", URI: uri, Timeout: 10 * time.Second})
+		}
+		first := get()
+		w.Clock.Advance(1)
+		before := get() // a plain hit, one second old
+		w.Cfg = mk(origin)
+		w.apply(r) // all memory is gone, the record is in the store
+		w.Clock.Advance(1)
+		after := get() // reloaded from its record (or refetched)
+		r.Eval(1)
+		r.Add("age_compared_across_a_reload_from_the_store", 1)
+		cs := map[string]interface{}{"uri": uri, "origin_age": originAge}
+		if first.Err != nil || before.Err != nil || after.Err != nil || before.Label != "hit" {
+			r.InconclusiveCase("C08 age across reload: the entry was not a hit before the reload")
+			continue
+		}
+		if after.Label == "hit" && after.FetchID == before.FetchID && after.Age < before.Age {
+			r.Violate("age_does_not_continue", map[string]string{"kind": "inproc_reload", "origin_age": originAge}, fmt.Sprintf("the same stored version was served with Age %d before the reload from the store and with Age %d one second later, after it", before.Age, after.Age), map[string]interface{}{"before": before.Brief(), "after": after.Brief()}, cs)
+			continue
+		}
+		r.Distinct("age_across_reload origin_age=" + originAge + " after=" + after.Label)
+		w.Clock.Advance(200)
+	}
+}
+
 // judgeInproc: the same oracle as after a real restart, on the virtual clock of the in-process world
 func (e *c08Env) judgeInproc(res *hx.Result, phase string) bool { return e.judge(res, phase) }
 
 func c08(r *hx.Run) {
 	r.Level = "fault_enumeration"
-	r.Rule = "real pike binary (race build) with a badger store and a clock file; every second case with an LRU of 32 entries for about 100 keys (constant eviction and reload from badger). Per case three incarnations on the same store: (1) populate cacheable (T=100) and uncacheable (period 20 s) keys, 8 sequentially and 48 in one concurrent burst, SIGKILL at quiescence; (2) concurrent writes of 40 new keys, hits and purges (admin API) with the crash armed: self-kill the n-th time a named hook point is reached (cacheable.enter/released/saved, hfp.enter/released/saved, get.loaded, purge.removed; n first/middle/late), external SIGKILL at a random moment, or SIGTERM; (3) restart and probe every key in the same second, at mid-life, at the exact expiry second and one second later; (4) SIGKILL, move the clock past every expiry, restart, probe again (first lookup after the restart). In-process, the same oracle judges crashes at the granularity of single store writes: after expiry+refetch, purge+refetch, a hit-for-pass period turning cacheable and a first fetch, only the first n store writes (n = 0..3) are applied, then the memory is dropped and the key is probed across its lifetime. Every answer is judged against the origin's log: byte-identical version of that key, hit only inside the version's original lifetime with Age continuing from the original fetch and no upstream contact, never a version whose purge completed, hit-for-pass only inside a marker's period; pike must come up after every stop. Non-trivial/distinct = (kind, point, n) whose crash point was reached."
+	r.Rule = "real pike binary (race build) with a badger store and a clock file; every second case with an LRU of 32 entries for about 100 keys (constant eviction and reload from badger). Per case three incarnations on the same store: (1) populate cacheable (T=100) and uncacheable (period 20 s) keys, 8 sequentially and 48 in one concurrent burst, SIGKILL at quiescence; (2) concurrent writes of 40 new keys, hits and purges (admin API) with the crash armed: self-kill the n-th time a named hook point is reached (cacheable.enter/released/saved, hfp.enter/released/saved, get.loaded, purge.removed; n first/middle/late), external SIGKILL at a random moment, or SIGTERM; (3) restart and probe every key in the same second, at mid-life, at the exact expiry second and one second later; (4) SIGKILL, move the clock past every expiry, restart, probe again (first lookup after the restart). In-process: responses whose origin sent its own Age show an Age that does not fall when the memory is dropped and the record reloaded; and the same oracle judges crashes at the granularity of single store writes: after expiry+refetch, purge+refetch, a hit-for-pass period turning cacheable and a first fetch, only the first n store writes (n = 0..3) are applied, then the memory is dropped and the key is probed across its lifetime. Every answer is judged against the origin's log: byte-identical version of that key, hit only inside the version's original lifetime with Age continuing from the original fetch and no upstream contact, never a version whose purge completed, hit-for-pass only inside a marker's period; pike must come up after every stop. Non-trivial/distinct = (kind, point, n) whose crash point was reached."
 	r.Assume = []string{"refetching is always allowed (survival of an entry is not demanded)", "clock = real clock + offset file (whole seconds); verdicts use [call,return] clock intervals", "power-loss durability is out of scope (SIGKILL keeps the page cache)"}
 	bin, err := hx.BuildPike(r.Scratch)
 	if err != nil {
@@ -634,6 +690,7 @@ func c08(r *hx.Run) {
 	wg.Wait()
 	r.Set("cases", len(cases))
 	c08StoreWriteCrash(r)
+	c08AgeAcrossReload(r)
 }
 
 func init() { register("C08", "fault_enumeration", c08) }
